@@ -180,7 +180,13 @@ func (h *Hist) newScanCtx() *ScanCtx {
 		spec := &h.S.Groups[i]
 		g := &GroupView{Spec: spec, Name: spec.Opts.Name, PodsOn: map[string]int{}, ASGName: spec.Opts.CloudProviderGroupName}
 		g.Dry = h.S.DryGlobal || spec.Opts.DryMode
-		for _, n := range h.W.ViewNodes {
+		// the view as an honest informer cache holds it (the objects handed to the controller are
+		// shared from scan to scan; if the controller wrote into one, its own view is corrupted)
+		truth := h.W.ViewNodes
+		if len(h.W.ViewTruth) == len(h.W.ViewNodes) {
+			truth = h.W.ViewTruth
+		}
+		for _, n := range truth {
 			if n.Labels[spec.Opts.LabelKey] == spec.Opts.LabelValue {
 				g.Nodes = append(g.Nodes, n.DeepCopy())
 			}
